@@ -223,7 +223,8 @@ class BitStringEncoder(AbstractItemEncoder):
         while stop < valueLength:
             start = stop
             stop = min(start + maxChunkSize * 8, valueLength)
-            substrate += encodeFun(alignedValue[start:stop], asn1Spec, **options)
+            # each chunk is a value object that carries the tag of a segment
+            substrate += encodeFun(alignedValue[start:stop], None, **options)
 
         return substrate, True, True
 
@@ -263,7 +264,7 @@ class OctetStringEncoder(AbstractItemEncoder):
 
             asn1Spec = value.clone(tagSet=tagSet)
 
-        elif not isOctetsType(value):
+        else:
             baseTag = asn1Spec.tagSet.baseTag
 
             # strip off explicit tags
